@@ -35,9 +35,11 @@ claim("C17", "Coq theorems about the blend wrapper for all 19 modes, re-proved o
       "(65536-point sweep on primitive floats); for the four HSL modes C17_range_hsl_only_failure shows the float-to-byte range check is the only possible "
       "failure and C17_range_hsl_partial assumes it passes (goal_C17_range_hsl keeps the unconditional statement visible). Tie to the code, both ways: (a) every run "
       "translates the current src/blend.rs (and the two mode-dispatch tables of file.rs / layer.rs) to Gallina in the option monad - arithmetic checked in its Rust "
-      "type, debug_assert!, division, run-time indices - and the kernel re-checks GEN_tie (generated blend = model blend for all byte inputs and mode ids 0..18, None "
-      "outside) and C17_*_gen (all the laws and the range / no-overflow statements for the generated functions; channel functions by complete 256 x 256 sweeps, the "
-      "rest symbolically); (b) the laws are evaluated on ~1.7 million rendered pixels per quick run in builds with overflow checks and debug assertions.",
+      "type, debug_assert!, division, run-time indices - and the kernel re-checks GEN_struct (what the code runs for mode id m is Normal or the wrapper `blender` "
+      "around the generated baseline of that mode, None outside 0..18), GEN_baselines_shape (every generated baseline replaces the source colour, keeps its alpha and "
+      "ends in normal - proved from the generated text itself, independently of what the colour functions compute, so a change that only alters colours leaves C17 "
+      "proved) and C17_*_gen (the five laws; the range / no-overflow statements through complete 256 x 256 totality sweeps of the twelve generated channel functions "
+      "and checked arithmetic for addition / subtract; the two guarded HSL range statements through the equality of the HSL float code with the model); (b) the laws are evaluated on ~1.7 million rendered pixels per quick run in builds with overflow checks and debug assertions.",
       "Partial: the HSL range statement carries the computable guard hsl_ok. Print Assumptions lists only primitive float/int63 operations. Trusted additionally: the translator tools/rs2coq.py and the operation semantics coq/Gen/RustSem.v (checked +,-,*,/ per integer type, wrapping shifts and casts, saturating float casts, NaN-ignoring min/max). A source change outside the translated subset, or one the static proof script no longer follows, is reported as a broken obligation (with a failing pixel when the run finds one, no-failing-input-found otherwise).",
       "DESIGN.md section 5, C17")
 claim("C03", "Coq refinement proof (blend code regenerated from src/blend.rs by a translator on every run) = Model/Blend.v = Spec/AseRef.v (transcribed Aseprite C++) + pixel-exact comparison through Frame::image",
